@@ -64,7 +64,7 @@ func (c20Engine) Gen(g *Gen) {
 		w int
 		t string
 	}{{80, "foo\nbar"}, {9, "aaaa bbbb"}, {80, ""}, {80, "   "}, {20, "the quick brown ox"}, {20, "  the quick brown fox jumps over the lazy dog  "},
-		{10, "alpha　beta gamma delta epsilon"}, {12, "a b c\u0085d e f g h"}, {3, "a b"}, {0, "a b c"}, {-5, "x  y"}, {8, "\xff\xfe a\xc3 b"}} {
+		{10, "alpha　beta gamma delta epsilon"}, {12, "a b c\u0085d e f g h"}, {3, "a b"}, {0, "a b c"}, {-5, "x  y"}, {20, "100% done %d %s"}, {16, "lorem ipsum lorem ipsum dolor"}, {0, "a a"}, {8, "\xff\xfe a\xc3 b"}} {
 		emit(c.w, c.t)
 	}
 	alpha := []string{"a", " ", "\n", "é", "　", "bb"}
@@ -108,7 +108,7 @@ func (c20Engine) Gen(g *Gen) {
 		}
 	}
 	// random texts
-	words := []string{"a", "to", "the", "quick", "brown", "jumps", "überläuft", "日本語", "supercalifragilistic", "x", "\xff", "é", "1234567", "12", "7", "100", "42"}
+	words := []string{"a", "to", "the", "quick", "brown", "jumps", "überläuft", "日本語", "supercalifragilistic", "x", "\xff", "é", "1234567", "12", "7", "100", "42", "100%", "%d", "%s%v", "%%", "%!s(MISSING)", "50%-off"}
 	blanks := []string{" ", " ", " ", "  ", "\n", "\t", "\r\n", " ", "\u0085", " ", " ", " ", "　", "\v", "\f"}
 	n := 3000
 	if g.Thorough() {
